@@ -10,6 +10,8 @@ import GM.Props.ConvertNP
 import GM.Props.ConvertXE2E
 import GM.Proof.BlocksTNP37
 import GM.Proof.BlocksTNO45
+import GM.Proof.BlocksTNO47
+import GM.Proof.BlocksTNP41
 
 namespace GM.Props.ConvertNPX
 open GM GM.Text GM.Spec GM.Blocks GM.LinkRef GM.Convert GM.ConvertX GM.TableX
@@ -125,6 +127,16 @@ theorem convertl_total_of_records_and_esc
       (if c.base.table then escOfTree src (treeOf st.nodes st.nodes.length 0) else []).Pairwise (· < ·)) :
     GM.Props.ConvertXE2E.ConvertLTotal :=
   GM.Blocks.TX.convertL_total_of_class_esc hR hE
+
+/-- round 4, the tree-level half of the escaped-pipe clause: if the node ids of the final store can be labelled by source spans
+    `[lo id, hi id)` (`SpanOK`: a node's own recorded positions ascend inside its span and lie before its children's spans; children's
+    spans are nested in the parent's and disjoint in child-list order), then `escOfTree` of the tree is strictly ascending. What is
+    still missing is the DRIVER fact that such a labelling exists (children appended in source order, the Table inserted directly
+    behind its paragraph). -/
+theorem esc_ascending_of_spans (c : GCfg) (src : Bytes) (st : St)
+    (hS : c.base.table = true → ∃ lo hi, GM.Blocks.TP4.SpanOK src st.nodes lo hi) :
+    (if c.base.table then escOfTree src (treeOf st.nodes st.nodes.length 0) else []).Pairwise (· < ·) :=
+  GM.Blocks.TP4.blockPhaseX_esc_ascending_of_spans c src st hS
 
 /-- tests on literals (kernel-evaluated): `|a|b|⏎|-|-|⏎|c|d|⏎` — the block phase with Table builds the table (the store grows beyond
     Document + Paragraph); `|a|⏎|-|⏎|`\|`|⏎` — a row with an escaped pipe: the TableRow record (node 5, tag 103) holds the position
